@@ -10,17 +10,17 @@ EXTENDS Corrupt, Json
 Trace == ndJsonDeserialize("c05corrupt.ndjson")
 
 VerdictFree(o) ==
-    IF o.ret # "ok" THEN o.ret
-    ELSE IF o.others THEN "other-counter-changed"
+    IF Safety(o) # "ok" THEN Safety(o)
     ELSE IF o.open = "inconsistent" THEN "open-class"
     ELSE IF o.open = "parks" /\ ~o.untouched THEN "parked-file-written"
-    ELSE IF o.open = "parks" /\ o.mode # "memory" THEN "mode-class"
+    ELSE IF o.open = "parks" /\ ~ModeAccepts("memory", o.mode) THEN "mode-class"
     ELSE "ok"
 VerdictOf(x) == IF x.free THEN VerdictFree(x.o) ELSE Verdict(x.file, x.op, x.o)
 (* what the lookup of the operation's name meets, for signatures *)
-LookupOf(x) == IF x.free \/ x.file.trunc # "none" \/ x.file.hdr # "ok" THEN "-" ELSE Lookup(x.file, x.op)[1]
+LookupOf(x) == IF x.free \/ TooShort(x.file) \/ x.file.hdr # "ok" THEN "-" ELSE Lookup(x.file, x.op)[1]
 
-Bad == {<<i, VerdictOf(Trace[i]), LookupOf(Trace[i])>> : i \in {j \in 1..Len(Trace) : VerdictOf(Trace[j]) # "ok"}}
+WantOf(x) == IF x.free THEN (IF x.o.open = "parks" THEN "memory" ELSE "any") ELSE ExpectMode(x.file, x.op)
+Bad == {<<i, VerdictOf(Trace[i]), LookupOf(Trace[i]), WantOf(Trace[i])>> : i \in {j \in 1..Len(Trace) : VerdictOf(Trace[j]) # "ok"}}
 ASSUME PrintT(<<"C05CBAD", Bad>>)
 
 VARIABLE l
